@@ -27,7 +27,6 @@ RET_ALLOWED = {
     'grid.grid_prep_opts': 'option normalisation may hand back its arguments',
     'core.core_stab': 'returns the core itself below the threshold',
     'core.core_dot_maxvol': 'returns the index argument ind when it is given',
-    'act_one.copy': 'number / None pass-through',
 }
 SKIP = {
     'act_one.getter': 'needs numba; raises ValueError in this environment',
